@@ -56,7 +56,9 @@ func (r *Report) Class() string {
 // error (harness trouble; executor panics are recovered inside execOp).
 func bubble(t *testing.T, f func()) (err error) {
 	defer func() {
-		if r := recover(); r != nil {
+		if r := recover(); r != nil && err == nil {
+			// (When f itself failed, parked task goroutines remain and
+			// synctest reports a deadlock on top: keep the first error.)
 			err = toErr(r)
 		}
 	}()
@@ -111,6 +113,9 @@ func RunScenario(t *testing.T, sc *Scenario, keepLog bool) (*Report, error) {
 				}
 				tab[r] = w.execOp(op, nil, true)
 			}
+			for _, o := range tab {
+				releaseContexts([]*Outcome{o})
+			}
 		})
 		return tab, err
 	}
@@ -122,6 +127,7 @@ func RunScenario(t *testing.T, sc *Scenario, keepLog bool) (*Report, error) {
 				time.Sleep(d)
 			}
 			out = w.execOp(opOf(r), nil, true)
+			releaseContexts([]*Outcome{out})
 		})
 		return out, err
 	}
@@ -199,9 +205,6 @@ func RunScenario(t *testing.T, sc *Scenario, keepLog bool) (*Report, error) {
 		o := run.outcomes[r.task][r.op]
 		for k, n := range o.nodeKinds {
 			run.stats.NodeKinds[k] += n
-		}
-		if o.Polls > 0 && o.Steps == 0 {
-			return nil, harnessf("polls observed but the step hook never ran: /repo built without -tags verif or hook line missing")
 		}
 		if o.Fired {
 			op := opOf(r)
